@@ -78,7 +78,7 @@ func partHealth(sink *trace.Sink, rnd *rand.Rand, monitors int, seconds int, sta
 	addr2id := map[string]string{}
 	probeCount := map[string]int{}
 	var mu sync.Mutex
-	sched.Mapper = func(point string, kv []any) []any {
+	sched.SetMapper(func(point string, kv []any) []any {
 		out := []any{}
 		for i := 0; i+1 < len(kv); i += 2 {
 			if kv[i] == "addr" {
@@ -95,7 +95,7 @@ func partHealth(sink *trace.Sink, rnd *rand.Rand, monitors int, seconds int, sta
 			out = append(out, kv[i], kv[i+1])
 		}
 		return out
-	}
+	})
 	ctx, cancel := context.WithCancel(context.Background())
 	var togs []*toggler
 	for i := 0; i < monitors; i++ {
@@ -150,7 +150,7 @@ func partHealth(sink *trace.Sink, rnd *rand.Rand, monitors int, seconds int, sta
 	for _, t := range togs {
 		t.set(false)
 	}
-	sched.Mapper = nil
+	sched.SetMapper(nil)
 }
 
 // ---- part W ------------------------------------------------------------------------------------------
@@ -411,11 +411,11 @@ func cproxiesCmd(args []string) int {
 		return 2
 	}
 	sched.Install(sink)
-	sched.Filter = func(p string) bool { return p == "mon.probe" }
+	sched.SetFilter(func(p string) bool { return p == "mon.probe" })
 	rnd := rand.New(rand.NewSource(*seed))
 	stats := map[string]int{}
 	partHealth(sink, rnd, *monitors, *seconds, stats)
-	sched.Filter = func(p string) bool { return false }
+	sched.SetFilter(func(p string) bool { return false })
 	partWrapper(sink, rnd, *histories, *steps, stats)
 	partVisitors(sink, rnd, *histories, 2**steps, stats)
 	sink.Close()
